@@ -186,7 +186,20 @@ def tasks(tier):
             ('contracts.c11', 'iter_ops', ()), ('contracts.c11', 'remove_op', ()), ('contracts.c11', 'rotate_op', ()),
             ('contracts.c11', 'extend_ops', ()), ('contracts.c11', 'compare_ops', ()), ('contracts.c11', 'count_op', ()),
             ('contracts.iteration', 'iterkeys_task', ('C11', False)), ('contracts.iteration', 'iterkeys_task', ('C11', True)),
-            ('contracts.traces', 'transact_block', ('C11',))]     # append at maxlen = push + trim in one block
+            ('contracts.traces', 'transact_block', ('C11',))] + \
+        [('contracts.c10', 'push_task', (sd,)) for sd in ('back', 'front')] + \
+        [('contracts.c10', 'pull_task', (m, sd)) for m in ('pull', 'peek') for sd in ('front', 'back')]
+    # (the queue contracts of Cache.push / pull / peek, which every end operation of Deque is verified against)
+
+
+def post_process(results, tier):
+    out = []
+    for r in results:
+        if r['name'].startswith('C10.'):
+            r = Result('C11.queue.' + r['name'][4:], r['kind'], r['verdict'],
+                       **{k: v for k, v in r.items() if k not in ('name', 'kind', 'verdict')})
+        out.append(r)
+    return out
 
 
 def meta(results, tier):
